@@ -112,6 +112,23 @@ class Wiretap:
             if any(p['type'] == R.P_SA for p in pls):
                 self.init_ress.setdefault((h['spi_i'], h['spi_r']), []).append((bytes(data), h, pls, meta['sender']))
 
+    def note_rewrite(self, meta, original, rewritten):
+        """A man in the middle replaced a datagram in flight: the variants that actually reach the receiver are candidates too
+        (each endpoint derives its keys from what IT sent and what IT received)."""
+        self._c('rewritten_in_flight')
+        for data in rewritten:
+            try:
+                h = R.dec_header(data)
+                if h['exch'] != R.IKE_SA_INIT or h['length'] != len(data):
+                    continue
+                pls = [R.dec_payload(p) for p in R.dec_chain(data[28:], h['next'])]
+            except R.DecodeError:
+                continue
+            if not h['R']:
+                self.init_reqs.setdefault(h['spi_i'], []).append((bytes(data), h, pls, meta['sender'], meta['src'], meta['dst']))
+            elif any(p['type'] == R.P_SA for p in pls):
+                self.init_ress.setdefault((h['spi_i'], h['spi_r']), []).append((bytes(data), h, pls, meta['sender']))
+
     def _try_establish(self, spi_i, spi_r, probe_data, probe_from_initiator):
         """Find the (request, response) pair of IKE_SA_INIT messages whose keys open `probe_data`."""
         for res_raw, rh, rpls, rsender in reversed(self.init_ress.get((spi_i, spi_r), [])):
